@@ -416,7 +416,7 @@ fn main() {
             });
         },
     );
-    let depth = ctx.pick(4, 7);
+    let depth = ctx.pick(4, 8);
     let inits = vec![St { z: Complex::new(r(1), r(0)), m: CQ::new(r(1), r(0)) }, St { z: Complex::new(r(0), rq(1, 2)), m: CQ::new(r(0), rq(1, 2)) }];
     explore(&ctx, "compound-assignment histories on Complex<Rat>", inits.clone(), BfsOpts { max_depth: depth, state_cap: ctx.pick(1_000_000, 20_000_000) });
     if ctx.quick() {
